@@ -393,7 +393,8 @@ def check(res, tier, replay=None):
                     if m.stream_level and m.model:
                         u = 0 if tool == "ovniemu" else 1
                         cls = [L.model_class(m.model[(s, u)]) for s in range(len(m.tr.streams))]
-                        has_region = any(e.mcv in ("OU[", "OU]") for s, evs in m.tr.streams for e in evs)
+                        has_region = any(e.mcv in ("OU[", "OU]") for s, evs in m.tr.streams for e in evs) or \
+                            any(b"OU[" in m.tr.obs(s) or b"OU]" in m.tr.obs(s) for s in range(len(m.tr.streams)))
                         if tool == "ovnisort":
                             # ovnisort steps every stream itself: an event-less (inactive) stream makes
                             # stream_step fail ("stream is inactive"), the player-based tools skip it
